@@ -4,7 +4,7 @@
 (* harness streamed for it; the engine is a function, so every line is judged on   *)
 (* its own: a line that fails is printed as <<"REJECT", {line, fails}>> (fails =   *)
 (* "<form>:<clause>") and the validation goes on.  TRACE=<file.ndjson>.            *)
-(*   {op:"ripser", n, edges:[[a,b,w],..], dense, t (-1: none), dmax, p, nsimp,      *)
+(*   {op:"ripser", n, edges:[[a,b,w],..], dense, t (-1: none), dmax, p, nsimp, oracle, *)
 (*    runs:[{form, enc, dims:[..], out:[[dim,birth,death],..], exception?, problems?}]} *)
 (* dense: the edges are a whole dissimilarity matrix and t the threshold argument;  *)
 (* otherwise they are the sparse edge list (threshold argument ignored).           *)
@@ -40,22 +40,28 @@ GotBag(out) ==
       keys == {out[i] : i \in keep}
   IN  {[dim |-> k[1], b |-> k[2], d |-> k[3], n |-> Cardinality({i \in keep : out[i] = k})] : k \in keys}
 
-RunFails(e, r, exp) ==
+RunFails(e, r, exp, useExp) ==
   IF "exception" \in DOMAIN r THEN {"exception"}
   ELSE Unless("problems" \notin DOMAIN r, "output_not_from_input")
        \cup Unless(r.dims = [i \in 1..(TopDim(e.n, e.dmax) + 1) |-> i - 1], "dims")
        \cup Unless(\A i \in DOMAIN r.out : r.out[i][2] <= r.out[i][3], "negative_interval")
-       \cup Unless(GotBag(r.out) = exp, "diagram")
+       \cup Unless(~useExp \/ GotBag(r.out) = exp, "diagram")
        \cup Unless(Forced(r.form) \/ r.enc = Dispatched(e.n, e.dmax, e.p), "encoding_formula")
+
+(* without oracle (complex too large to recompute here): the runs that ended normally must have streamed the same bag *)
+FormsAgree(e) ==
+  LET ok == {i \in DOMAIN e.runs : "exception" \notin DOMAIN e.runs[i]} IN
+  \A i, j \in ok : GotBag(e.runs[i].out) = GotBag(e.runs[j].out)
 
 Fails(e) ==
   IF e.op # "ripser" THEN {"unknown_op"}
   ELSE IF ~WellTyped(e) THEN {"input"}
   ELSE LET G   == GraphOf(e)
-           exp == RipsDiagramAlg(e.n, G, e.dmax, e.p)
-       IN  UNION {{r.form \o ":" \o f : f \in RunFails(e, r, exp)} : r \in {e.runs[i] : i \in DOMAIN e.runs}}
+           exp == IF e.oracle THEN RipsDiagramAlg(e.n, G, e.dmax, e.p) ELSE {}
+       IN  UNION {{r.form \o ":" \o f : f \in RunFails(e, r, exp, e.oracle)} : r \in {e.runs[i] : i \in DOMAIN e.runs}}
            \cup Unless(Len(e.runs) > 0, "no_run")
-           \cup Unless(e.nsimp > DefMaxSimplices \/ e.n > 9 \/ e.p > 46341 \/ RipsDiagramDef(e.n, G, e.dmax, e.p) = exp, "spec_def_vs_alg")
+           \cup Unless(e.oracle \/ FormsAgree(e), "forms_disagree")
+           \cup Unless(~e.oracle \/ e.nsimp > DefMaxSimplices \/ e.n > 9 \/ e.p > 46341 \/ RipsDiagramDef(e.n, G, e.dmax, e.p) = exp, "spec_def_vs_alg")
 
 Judge(k) == LET f == Fails(Tr[k]) IN
   f = {} \/ PrintT(<<"REJECT", ToJson([line |-> k, fails |-> f])>>)
